@@ -37,7 +37,7 @@ theorem z_lt_pole (f : ℝ) (hf : -1960 < f) : C19.z f < 26.28 := by
   unfold C19.z
   have h : (0:ℝ) < 1960.0 + f := by norm_num; linarith
   have : (26.81:ℝ) * f / (1960.0 + f) < 26.81 := by
-    rw [div_lt_iff₀ h]; norm_num; linarith
+    rw [div_lt_iff₀ h]; norm_num
   norm_num at this ⊢; linarith
 
 theorem uncorr_lt_pole (s hi : ℝ) (hhi : -1960 < hi) (hs : s ≤ bark_h2s hi) : C19.uncorr s < 26.28 := by
@@ -122,10 +122,12 @@ theorem gridPos_le_top (t : ℝ) (ht : t ≤ (n:ℝ) + 1) : gridPos sc lo hi n t
     unfold gridStep; field_simp
   nlinarith
 
+omit ok hlt in
 theorem gridPos_top : gridPos sc lo hi n ((n:ℝ) + 1) = sc.h2s hi := by
   have hn : ((n:ℝ) + 1) ≠ 0 := by positivity
   unfold gridPos; field_simp; ring
 
+omit ok hlt in
 theorem gridPos_zero : gridPos sc lo hi n 0 = sc.h2s lo := by
   unfold gridPos; ring
 
@@ -143,7 +145,7 @@ theorem edges_equally_spaced (t : ℝ) (ht : t ≤ (n:ℝ) + 1) :
 /-- the first position is `low_hz`, the last is `high_hz` -/
 theorem vertex_ends :
     sc.s2h (gridPos sc lo hi n 0) = lo ∧ sc.s2h (gridPos sc lo hi n ((n:ℝ) + 1)) = hi := by
-  rw [gridPos_zero ok hlt, gridPos_top ok hlt]
+  rw [gridPos_zero, gridPos_top]
   exact ⟨ok.left_inv lo le_rfl, ok.left_inv hi hlt.le⟩
 
 /-- Hz values placed on the grid are strictly increasing in the step -/
